@@ -114,13 +114,16 @@ class HelloUnit:
     """One region -> one Gallina file Gen/<name>.v"""
 
     def __init__(self, name, func, start, end, inputs, schema_thunk, registries, externals=None, local_types=None,
-                 slice_doc='', pre=None, opaque=None):
+                 slice_doc='', pre=None, opaque=None, boundaries=True, effects=None, hyp=None):
         self.name, self.func, self.start, self.end = name, func, start, end
         self.inputs, self.schema_thunk, self.registries = inputs, schema_thunk, registries
         self.externals = externals or {}
         self.local_types = local_types or {}
         self.slice_doc = slice_doc
         self.opaque = opaque or {}
+        self.boundaries = boundaries
+        self.effects = effects or []
+        self.hyp = hyp          # Gallina text of a HYPOTHESIS on own state (definition emitted into the model file)
         self.pre = pre          # dict(name, args, gallina, prove, use): see crashlite.emit_proofs
         self.last = None
 
@@ -137,7 +140,7 @@ class HelloUnit:
             raise Refuse('function %s not found' % self.func)
         schema = self.schema_thunk()
         rt = cl.RegionTranslator(self.name, schema, vars(mod), fdef, self.start, self.end, self.inputs,
-                                 self.registries, externals=self.externals, opaque=self.opaque)
+                                 self.registries, externals=self.externals, opaque=self.opaque, boundaries=self.boundaries, effects=self.effects)
         body = rt.translate(self.local_types)
         self.last = rt
         head = ['(* GENERATED by translator/crashlite.py (unit %s) from %s:%s lines %d-%d -- do not edit.'
@@ -150,7 +153,7 @@ class HelloUnit:
                 '(* program points with an explicit Crash outcome (kind, site, source line) *)',
                 'Definition %s_crash_points : list (string * string) := [\n%s\n].' % (
                     self.name, ';\n'.join('  (%s, %s) (* line %d *)' % (cl.gstr(k), cl.gstr(s), ln) for k, s, ln in rt.sites)),
-                '', body] + ([self.pre['gallina']] if self.pre else [])
+                '', body] + ([self.pre['gallina']] if self.pre else []) + ([self.hyp] if self.hyp else [])
         return '\n'.join(head)
 
 
@@ -258,9 +261,12 @@ class ProofUnit:
             'Ltac c08_unit_domain := %s.' % (u.pre['use'] if u.pre else 'fail'),
             'Ltac c08_pre := %s.' % (u.pre['prove'] if u.pre else 'fail'),
             PROOF_LIB,
-            rt.emit_proofs(self.sites_name, (u.pre['name'], u.pre['args']) if u.pre else None),
-            'Theorem %s_crash_sites : forall %s, crash_in %s (%s %s).' % (
-                u.name, ' '.join(n for n, _ in u.inputs), self.sites_name, u.name, ' '.join(n for n, _ in u.inputs)),
+            rt.emit_proofs(self.sites_name, (u.pre['name'], u.pre['args']) if u.pre else None,
+                           entry_assumes=bool(u.pre and u.pre.get('assumed'))),
+            'Theorem %s_crash_sites : forall %s, %scrash_in %s (%s %s).' % (
+                u.name, ' '.join(n for n, _ in u.inputs),
+                ('%s %s -> ' % (u.pre['name'], ' '.join(u.pre['args']))) if (u.pre and u.pre.get('assumed')) else '',
+                self.sites_name, u.name, ' '.join(n for n, _ in u.inputs)),
             'Proof. exact %s_ok. Qed.' % u.name, ''])
 
 
@@ -333,8 +339,102 @@ def sh_unit():
                   'the checks of the (final) ServerHello against the ClientHello and the settings')
 
 
+# ---------------------------------------------------------------------------------------------
+# Server: validation of the SECOND ClientHello after a HelloRetryRequest (nested region of
+# _serverGetClientHello: the key_share checks; the second hello does NOT go through ChChecks again)
+def hrr_ch_unit():
+    return HelloUnit(
+        'HrrChChecks', '_serverGetClientHello',
+        start='ext = clientHello.getExtension(ExtensionType.key_share)',
+        end='old_ext = clientHello1.getExtension(ExtensionType.key_share)',
+        inputs=[('clientHello', OBJ('ClientHello')), ('selected_group', Z)],
+        schema_thunk=lambda: build_schema(CH_EXTS, CH_CLASSES),
+        registries={'ClientHello': registry_client}, boundaries=False,
+        slice_doc='slice (nested, after the HelloRetryRequest was sent and the second ClientHello parsed): from '
+                  '"ext = clientHello.getExtension(ExtensionType.key_share)" up to (not including) '
+                  '"old_ext = clientHello1.getExtension(ExtensionType.key_share)"')
+
+
+# ---------------------------------------------------------------------------------------------
+# Client: handling of a HelloRetryRequest (nested region of _clientGetServerHello)
+EXT_PAYLOAD['CookieExtension'] = ('cookie', [('cookie', OPT(BYTES))])
+EXT_PAYLOAD['HRRKeyShareExtension'] = ('key_share', [('selected_group', Z)])
+HRR_SH_EXTS = ['SupportedGroupsExtension', 'ClientKeyShareExtension', 'CookieExtension', 'HRRKeyShareExtension',
+               'SrvSupportedVersionsExtension']
+
+
+def registry_hrr(t):
+    import tlslite.extensions as X
+    for d in (X.TLSExtension._hrrExtensions, X.TLSExtension._universalExtensions):
+        if t in d:
+            return d[t].__name__
+    return 'TLSExtension'
+
+
+def hrr_sh_schema():
+    extra = {
+        'ServerHello': {'fields': [('server_version', VER), ('random', BYTES), ('session_id', BYTES), ('cipher_suite', Z),
+                                   ('compression_method', Z), ('extensions', OPT(LIST(EXT)))]},
+        'ClientHello': {'fields': [('session_id', BYTES), ('cipher_suites', LIST(Z)), ('extensions', OPT(LIST(EXT)))]},
+    }
+    return build_schema(HRR_SH_EXTS, extra)
+
+
+# HYPOTHESIS about the client's OWN ClientHello and the enclosing test (not proved by the region):
+# the own hello has an extension list with supported_groups (groups a list) and key_share (client_shares a
+# list) -- invariant of hellos built by _clientSendClientHello for TLS 1.3 since /repo 40ad8d2, checked on
+# every own hello observed by the tie -- and the HelloRetryRequest has an extension list (the enclosing `if`
+# found its supported_versions extension).
+HRR_SH_HYP = dict(
+    name='hrr_own_ok', args=['clientHello', 'hello_retry'], assumed=True,
+    gallina='''
+Definition hrr_own_ok (clientHello : ClientHello_r) (hello_retry : ServerHello_r) : Prop :=
+  exists l g gl k sl hl,
+    ClientHello_extensions clientHello = Some l /\\
+    getExtensionAs as_SupportedGroupsExtension (Some l) 10 = OK (Some g) /\\
+    SupportedGroupsExtension_groups g = Some gl /\\
+    getExtensionAs as_ClientKeyShareExtension (Some l) 51 = OK (Some k) /\\
+    ClientKeyShareExtension_client_shares k = Some sl /\\
+    ServerHello_extensions hello_retry = Some hl.
+''',
+    prove='assumption',
+    use='''match goal with
+  | H : hrr_own_ok _ _ |- _ =>
+    let l := fresh "l" in let g := fresh "g" in let gl := fresh "gl" in let k := fresh "k" in
+    let sl := fresh "sl" in let hl := fresh "hl" in
+    let H1 := fresh "Hown" in let H2 := fresh "Hown" in let H3 := fresh "Hown" in let H4 := fresh "Hown" in
+    let H5 := fresh "Hown" in let H6 := fresh "Hown" in
+    destruct H as (l & g & gl & k & sl & hl & H1 & H2 & H3 & H4 & H5 & H6); rewrite ?H1, ?H6 in *
+  | H : getExtensionAs ?c ?e ?t = _ |- context [getExtensionAs ?c ?e ?t] => rewrite H
+  | H : SupportedGroupsExtension_groups ?g = _ |- context [SupportedGroupsExtension_groups ?g] => rewrite H
+  | H : ClientKeyShareExtension_client_shares ?k = _ |- context [ClientKeyShareExtension_client_shares ?k] => rewrite H
+  end''')
+
+
+def hrr_sh_unit():
+    return HelloUnit(
+        'HrrShChecks', '_clientGetServerHello',
+        start='ch_ext_types = set(', end='ext = clientHello.getExtension(ExtensionType.pre_shared_key)',
+        inputs=[('clientHello', OBJ('ClientHello')), ('hello_retry', OBJ('ServerHello')),
+                ('self__genKeyShareEntry', FUN([Z, VER], OBJ('KeyShareEntry')))],
+        schema_thunk=hrr_sh_schema,
+        registries={'ServerHello': registry_hrr, 'ClientHello': registry_client},
+        externals={'self._genKeyShareEntry': ([Z, VER], OBJ('KeyShareEntry'))},
+        effects=['clientHello.addExtension(cookie)', 'cl_key_share_ext.client_shares'],
+        boundaries=False, pre=HRR_SH_HYP,
+        slice_doc='slice (nested, inside the HelloRetryRequest branch): from "ch_ext_types = set(...)" up to (not '
+                  'including) "ext = clientHello.getExtension(ExtensionType.pre_shared_key)"; effects on own objects '
+                  'dropped: clientHello.addExtension(cookie) (cookie is not looked up in the own hello afterwards), '
+                  'cl_key_share_ext.client_shares = [key_share] (not read afterwards); self._genKeyShareEntry is an '
+                  'external assumed total for a group of the own supported_groups')
+
+
 UNITS = {
     'ChChecks': ch_unit,
+    'HrrShChecks': hrr_sh_unit,
+    'HrrShChecksProof': lambda: ProofUnit(hrr_sh_unit, 'Model.C08_Known', 'hrr_sh_known_sites'),
+    'HrrChChecks': hrr_ch_unit,
+    'HrrChChecksProof': lambda: ProofUnit(hrr_ch_unit, 'Model.C08_Known', 'hrr_ch_known_sites'),
     'ShChecks': sh_unit,
     'ShChecksProof': lambda: ProofUnit(sh_unit, 'Model.C08_Known', 'sh_known_sites'),
     'ChChecksProof': lambda: ProofUnit(ch_unit, 'Model.C08_Known', 'ch_known_sites'),
